@@ -49,6 +49,13 @@ func cases(tier string, seed int64) []fw.Case {
 		}
 		cs = append(cs, fw.MkCase(fmt.Sprintf("%s-%03d", k, i), seed*1000003+int64(i)*7919, p))
 	}
+	// "span" (span.go): appended after the rotating kinds so that the cases above keep their index, seed and
+	// parameters; always two chains, every stake distribution.
+	for j := 0; j < n/len(kinds); j++ {
+		i := n + j
+		p := params{Kind: "span", Steps: steps + 10*(i%4), Stakes: j, Chains: 2}
+		cs = append(cs, fw.MkCase(fmt.Sprintf("span-%03d", i), seed*1000003+int64(i)*7919, p))
+	}
 	return cs
 }
 
@@ -77,6 +84,8 @@ func run(c fw.Case, tier string, rec *fw.Recorder) {
 		h.scriptReassign()
 	case "feegap":
 		h.scriptFeeGap()
+	case "span":
+		h.scriptSpan()
 	}
 	h.walk(p.Steps, p.Kind)
 	h.mon.finish()
@@ -315,6 +324,11 @@ func (h *hist) walk(steps int, kind string) {
 		{2, h.opSameKey},
 		{2, h.opHandover},
 		{2, h.opFeeGap},
+		{3, h.opSpanSign},
+		{1, h.opSpanConfirm},
+	}
+	if kind == "span" {
+		ops = append(ops, wop{9, h.opSpanSign}, wop{3, h.opSpanConfirm})
 	}
 	if kind == "alias" || kind == "mix" {
 		ops = append(ops, wop{2, func() { h.opAlias([]string{"padded-pubkey", "address-case"}[h.r.Intn(2)]) }},
@@ -344,9 +358,10 @@ func init() {
 			"(cq: sign -> re-register -> elect estimate/attach fees -> sign again; batch: confirm -> elect batch estimate -> confirm again -> executed/timeout; " +
 			"alias: a validator registers another one's key in a different encoding; handover: a released key is registered by another validator; " +
 			"feegap: estimate consensus for a fee-paying message while its fees cannot be computed (assignee's relayer fee zero / negative / overflowing, treasury fee unusable), signatures collected meanwhile, cause removed, fees attached; " +
+			"span: every validator registers a different external account per chain, then signature transactions spanning the queues of both chains (one MsgAddMessagesSignatures, several of them in one tx, several txs in one block) with the other chain's account in every position of lists of 2-4 entries, and confirm transactions spanning batches of both chains; " +
 			"mix: none) followed by a weighted random walk over " +
 			"sign / confirm (valid, garbage, wrong key, other validator's key, replayed foreign signature, duplicate, stale bytes, foreign orchestrator, carried by a user), " +
-			"gas estimates with and without quorum, job executions, transfers, batch building, executed claims, time-outs, key re-registrations, same-key registration attempts, self-contained fee-gap rounds. " +
+			"gas estimates with and without quorum, job executions, transfers, batch building, executed claims, time-outs, key re-registrations, same-key registration attempts, self-contained fee-gap rounds, spanning signature / confirm rounds. " +
 			"The invariant is evaluated after EVERY block over all messages of all consensus queues and all batches. " +
 			"evaluations = stored signatures / confirms verified with ecrecover; distinct_nontrivial = distinct per-item event traces (accepted and rejected " +
 			"signature attempts by mode and reason, signing-byte changes with cause and number of signatures before/after, re-registrations of signers) of items " +
@@ -362,7 +377,8 @@ func init() {
 		Cases: cases,
 		Run:   run,
 		MinCounters: []string{"cq/signatures_verified", "batch/confirms_verified", "cq/changes_with_signatures_to_discard", "batch/changes_with_signatures_to_discard",
-			"cq/fee_gap/signed_in_gap_then_fees_attached"},
+			"cq/fee_gap/signed_in_gap_then_fees_attached",
+			"cq/span/valid_txs_accepted", "cq/span/other_chains_account_behind_its_legitimate_use_decided"},
 		TimeoutS: 1200,
 	})
 }
